@@ -307,14 +307,6 @@ Proof.
   induction l as [|[k [c|]] r IH]; cbn [classified map fst]; constructor; assumption.
 Qed.
 
-(* what an editor sees of a reported token *)
-Definition tok_len (t : text) (k : token) : N :=
-  match text_slice t (ts k) (te k) with Some m => u16s m | None => 0 end.
-
-Definition tok_view (t : text) (e : token * (N * N)) : abstok :=
-  {| at_line := fst (as_position (ts (fst e)) t); at_col := snd (as_position (ts (fst e)) t);
-     at_len := tok_len t (fst e); at_ty := fst (snd e); at_mod := snd (snd e) |}.
-
 Fixpoint SortedFrom (b : N) (l : list tagged) : Prop :=
   match l with
   | [] => True
@@ -800,96 +792,6 @@ Qed.
    of the occurrence (declared name / type position / variable position / callee), not by looking
    the spelling up.  Ranges and offsets are relative to the enclosing Reference, as in Errors.v. *)
 Local Open Scope nat_scope.
-
-Definition occ := (nat * option (N * N))%type.
-
-Definition ident_at (base : nat) (i : ident) (c : option (N * N)) : list occ :=
-  if Nat.ltb (i_s (id_info i)) (i_e (id_info i)) then [(base + i_e (id_info i) - 1, c)] else [].
-
-(* a name in variable position denotes the parameter or variable of that name of the procedure *)
-Definition var_use_class (l : option ltable) (name : text) : option (N * N) :=
-  match l with
-  | Some lt =>
-      match lookup lt name with
-      | Some (LVar _) => Some (ty_variable, mod_none)
-      | Some (LParam _) => Some (ty_parameter, mod_none)
-      | None => None
-      end
-  | None => None
-  end.
-
-Fixpoint var_occs (l : option ltable) (base : nat) (v : variable) : list occ :=
-  match v with
-  | NamedVar n => ident_at base n (var_use_class l (id_val n))
-  | ArrAccess a idx _ =>
-      var_occs l base a ++ match idx with Some (e, off) => expr_occs l (base + off) e | None => [] end
-  end
-with expr_occs (l : option ltable) (base : nat) (e : expr) : list occ :=
-  match e with
-  | EBin _ a b _ => expr_occs l base a ++ expr_occs l base b
-  | EBrack a _ | EUn _ a _ => expr_occs l base a
-  | EInt _ | EErr _ => []
-  | EVar v => var_occs l base v
-  end.
-
-Fixpoint texpr_occs (base : nat) (t : typeexpr) : list occ :=
-  match t with
-  | TNamed n => ident_at base n (Some (ty_type, mod_none))
-  | TArray _ b _ => match b with Some (b', off) => texpr_occs (base + off) b' | None => [] end
-  end.
-
-Definition opt_texpr_occs (base : nat) (t : option (typeexpr * nat)) : list occ :=
-  match t with Some (x, off) => texpr_occs (base + off) x | None => [] end.
-Definition opt_expr_occs (l : option ltable) (base : nat) (e : option (expr * nat)) : list occ :=
-  match e with Some (x, off) => expr_occs l (base + off) x | None => [] end.
-
-Fixpoint stmt_occs (l : option ltable) (base : nat) (s : stmt) : list occ :=
-  let opt_stmt (r : option (stmt * nat)) : list occ :=
-    match r with Some (x, off) => stmt_occs l (base + off) x | None => [] end in
-  match s with
-  | SEmpty _ | SError _ => []
-  | SAssign v e _ => var_occs l base v ++ opt_expr_occs l base e
-  | SCall name args _ =>
-      ident_at base name (Some (ty_function, mod_none))
-      ++ flat_map (fun a => expr_occs l (base + snd a) (fst a)) args
-  | SIf c t e _ => opt_expr_occs l base c ++ opt_stmt t ++ opt_stmt e
-  | SWhile c b _ => opt_expr_occs l base c ++ opt_stmt b
-  | SBlock body _ =>
-      (fix go (ss : list (stmt * nat)) : list occ :=
-         match ss with [] => [] | (x, off) :: r => stmt_occs l (base + off) x ++ go r end) body
-  end.
-
-Definition opt_ident_at (base : nat) (n : option ident) (c : N * N) : list occ :=
-  match n with Some i => ident_at base i (Some c) | None => [] end.
-
-Definition param_occs (base : nat) (p : paramdecl * nat) : list occ :=
-  match fst p with
-  | PValid _ _ name ty _ =>
-      opt_ident_at (base + snd p) name (ty_parameter, mod_decl) ++ opt_texpr_occs (base + snd p) ty
-  | PError _ => []
-  end.
-
-Definition vardecl_occs (base : nat) (v : vardecl * nat) : list occ :=
-  match fst v with
-  | VValid _ name ty _ =>
-      opt_ident_at (base + snd v) name (ty_variable, mod_decl) ++ opt_texpr_occs (base + snd v) ty
-  | VError _ => []
-  end.
-
-Definition decl_occs (table : gtable) (g : gdecl) (off : nat) : list occ :=
-  match g with
-  | GType td => opt_ident_at off (td_name td) (ty_type, mod_decl) ++ opt_texpr_occs off (td_ty td)
-  | GProc pd =>
-      let l := get_local_table pd table in
-      opt_ident_at off (pd_name pd) (ty_function, mod_decl)
-      ++ flat_map (param_occs off) (pd_params pd)
-      ++ flat_map (vardecl_occs off) (pd_vars pd)
-      ++ flat_map (fun s => stmt_occs l (off + snd s) (fst s)) (pd_stmts pd)
-  | GError _ => []
-  end.
-
-Definition doc_occs (d : doc) : list occ :=
-  flat_map (fun go => decl_occs (d_table d) (fst go) (snd go)) (pg_decls (d_ast d)).
 
 (* The classification part of C15 on the model: in a document without diagnostics the answer reports
    (a) every keyword / number / comment of the text with its lexical class and
